@@ -8,11 +8,13 @@ Model: `QuiverModel/Core/Equal/Basic.lean` (`canonicalTuples`, `valuesEqual`, `e
 `matchVerdict`, `erase`, `mintRef`, `MintState`).  All statements are for every context, value,
 table, schedule — no bound on sizes or depths.
 
-Hypotheses that are *not* decoration (each is violated by a reachable state of the real system, see
-notes/C13.md "Findings"):
-  * `WF … pf` contains `f = pf pid` for every process handle `proc pid f`: `handle_self` reads the
-    function index from `frames.first()`, which a named tail call replaces (finding C13-B);
-  * `WF` excludes resources: `values_equal` has no `Resource` arm (finding C13-C);
+Hypotheses and history (see notes/C13.md "Findings"; all three defects were found through this
+property and are repaired in /repo):
+  * `WF … pf` contains `f = pf pid` for every process handle `proc pid f` — an invariant of the
+    system since `fix: the self handle of a process changed after a named tail call` (C13-B);
+    `valuesEqual_proc_fidx` shows what happens without it;
+  * resources: `values_equal` got its `Resource` arm with `fix: a resource handle never compared
+    equal to itself` (C13-C); no hypothesis about resources is needed any more;
   * (repaired in /repo by `fix: pin and repeated-binder equality failed on equal nil values`,
     found independently here as C13-A) `Equal` used to answer with its first operand, so NIL was
     never equal to NIL: `matchVerdictLegacy_nil`.
@@ -96,16 +98,36 @@ example : valuesEqual exCtx exA exB = true ∧ exA ≠ exB ∧ erase exCtx exA =
 
 /-! ## Where the hypotheses bite (mirrors of the three findings) -/
 
-/-- No `Resource` arm: a resource is not even equal to itself. -/
-theorem valuesEqual_resource (X : Ctx) (r t : Nat) (b : Val) : valuesEqual X (.res r t) b = false := by
-  cases b <;> simp [valuesEqual]
+/-- Resources compare by resource id only (the type id of the handle plays no role). -/
+theorem valuesEqual_resource (X : Ctx) (r t r' t' : Nat) :
+    valuesEqual X (.res r t) (.res r' t') = (r == r') := by
+  simp [valuesEqual]
 
-/-- Two handles to the same process with different function indices (what `handle_self` yields
-after a named tail call vs. what `notify_spawn` delivered to the parent) compare unequal although
-they erase to the same structural value. -/
+/-- Why `WF` demands coherent process handles: two handles to the same process with different
+function indices (what `handle_self` yielded after a named tail call, before the repair, vs. what
+`notify_spawn` delivered to the parent) compare unequal although they erase to the same value. -/
 theorem valuesEqual_proc_fidx (X : Ctx) (p f g : Nat) (h : f ≠ g) :
     valuesEqual X (.proc p f) (.proc p g) = false ∧ erase X (.proc p f) = erase X (.proc p g) := by
   simp [valuesEqual, h]
+
+/-- **The process-handle clause of `WF` is an invariant of the handle producers**: whatever a
+named tail call has put into the first frame, the handle `&.` yields is the value the spawner got
+from `notify_spawn`, and it satisfies `WF` for `pf` = "function the process was started with". -/
+theorem selfHandle_eq_spawnHandle (started : Nat → Option Nat) (pid f anyFrameFn : Nat)
+    (h : started pid = some f) : selfHandle started anyFrameFn pid = spawnHandle pid f := by
+  simp [selfHandle, spawnHandle, h]
+
+theorem handles_WF (X : Ctx) (started : Nat → Option Nat) (pid f anyFrameFn : Nat)
+    (h : started pid = some f) :
+    WF X (fun p => (started p).getD 0) (selfHandle started anyFrameFn pid) ∧
+    WF X (fun p => (started p).getD 0) (spawnHandle pid f) := by
+  simp [selfHandle, spawnHandle, WF, h]
+
+/-- Witness of the repaired defect C13-B: with the old `handle_self`, after a named tail call to a
+function `g ≠ f` the self handle differs from the spawner's handle, and `values_equal` says so. -/
+theorem selfHandleLegacy_differs (X : Ctx) (pid f g : Nat) (h : g ≠ f) :
+    valuesEqual X (selfHandleLegacy g pid) (spawnHandle pid f) = false := by
+  simp [selfHandleLegacy, spawnHandle, valuesEqual, h]
 
 /-! ## `Equal(n)` -/
 
